@@ -130,7 +130,7 @@ class Collector(EventListener):
         h.H.append(("ntf", name, _num(ts), h.tid(), h.cmd_label()))
         hook = self.hooks.get(name)
         if hook:
-            hook(name)
+            hook(name, event)
 
     def __eq__(self, other):
         return self is other
@@ -286,6 +286,9 @@ class Runner:
         self.listener_fired = {}
         self.cmd_steps = {}
         self.cmd_clock = {}
+        self.tc_done = set()
+        self.active_model = None
+        self.refill = bool((case.get("sched") or {}).get("refill"))
 
     # -- values ------------------------------------------------------------
     def tv(self, x):
@@ -419,7 +422,10 @@ class Runner:
         elif kind == "strategy":
             # documented: the error strategy can be changed during the run
             self.count("strategy_changed_mid_run")
-            sim.set_error_strategy(a[1])
+            if self.case.get("log_level") is not None:
+                sim.set_error_strategy(a[1], self.case["log_level"])
+            else:
+                sim.set_error_strategy(a[1])
         elif self.ext is not None:
             self.ext.perform(self, model, owner, idx, a)
         else:
@@ -465,12 +471,26 @@ class Runner:
                 sim.schedule_event_rel("5", model, "h", 5, eid=-1)
             elif kind == "past_event":
                 sim.schedule_event(SimEvent(now - one, model, "h", 5, eid=-1))
+            elif kind in ("nan_event", "nan_sub_event", "nan_custom_event"):
+                # an event OBJECT whose time is not a number
+                t = Duration(nan) if self.prog["clock"] == "duration" else nan
+                if kind == "nan_event":
+                    ev = SimEvent(t, model, "h", 5, eid=-1)
+                elif kind == "nan_sub_event":
+                    ev = SubEventA(t, model, "h", 5, eid=-1)
+                else:
+                    ev = CustomEvent(t, model, -1, 5)
+                sim.schedule_event(ev)
+            elif kind == "past_custom_event":
+                sim.schedule_event(CustomEvent(now - one, model, -1, 5))
             else:
                 raise ValueError(kind)
             return "ok"
         except ValueError:
             if kind not in ("past_abs", "neg_rel", "nan_abs", "nan_rel", "tiny_neg_rel",
-                            "tiny_past_abs", "str_abs", "none_abs", "str_rel", "past_event"):
+                            "tiny_past_abs", "str_abs", "none_abs", "str_rel", "past_event",
+                            "nan_event", "nan_sub_event", "nan_custom_event",
+                            "past_custom_event"):
                 raise
             return "refused:ValueError"
         except Exception as e:
@@ -528,6 +548,8 @@ class Runner:
         elif name == "initialize":
             rep = self.make_replication(cmd[1] if len(cmd) > 1 else None)
             sim.initialize(self.model, rep)
+            self.tc_done = set()            # (only an initialize that was admitted)
+            self.active_model = self.model
             self.subscribe()
         elif name == "initialize_failing":
             self.model.fail_construct = True
@@ -543,6 +565,8 @@ class Runner:
                 self.model_b = ProgramModel(self.sim, self)
             rep = self.make_replication(cmd[1] if len(cmd) > 1 else None)
             sim.initialize(self.model_b, rep)
+            self.tc_done = set()
+            self.active_model = self.model_b
             self.subscribe()
         else:
             raise ValueError("unknown command %r" % (cmd,))
@@ -589,6 +613,12 @@ class Runner:
             det.eager = None
             H.append(("polled", self.cmd_index, n))
             return None
+        if name == "end_replication_if_paused":
+            # only inside the generated space: a paused replication
+            s = self.snapshot()
+            if s[0] == "STOPPED" and s[1] == "STARTED":
+                return self.do_cmd(["end_replication"])
+            return None
         if name == "drain":
             # start() until the replication has ended (bounded)
             for _ in range(cmd[1] if len(cmd) > 1 else 50):
@@ -610,6 +640,8 @@ class Runner:
         self.cmd_steps[i] = [det.step, None]
         self.cmd_clock[i] = [det.clock, None, det.clock - det.jump_total, None]
         H.append(("cmd", i, name, "invoke", lt.id, before))
+        if self.refill and hasattr(det.schedule, "refill"):
+            det.schedule.refill()
         det.eager = None
         if name in ("start", "step", "run_up_to", "run_up_to_incl") and lt is det.driver:
             # (start() itself sleeps until the run thread has picked the command up)
@@ -678,9 +710,18 @@ class Runner:
                   where))
         return out
 
-    def listener_hook(self, type_name):
+    def listener_hook(self, type_name, event=None):
         """Lifecycle commands issued from a listener of a chosen type: the
         plan maps type name -> [occurrence number, command]."""
+        if type_name == "TIME_CHANGED" and self.prog.get("tc_listener") and event is not None:
+            # a TIME_CHANGED subscriber that schedules at the announced time or
+            # cancels an event (see RefDEVS._announce)
+            t = _num(event.content)
+            for idx, (T, a) in enumerate(self.prog["tc_listener"]):
+                if idx not in self.tc_done and self.ref_time(T) == t:
+                    self.tc_done.add(idx)
+                    self.count("action-in-TIME_CHANGED-listener")
+                    self.perform(self.active_model or self.model, "L", idx, a)
         plan = self.listener_cmds.get(type_name)
         if not plan:
             return
@@ -737,7 +778,11 @@ class Runner:
         self.sim = self.make_simulator()
         strategy = case.get("strategy")
         if strategy is not None:
-            self.sim.set_error_strategy(strategy)
+            if case.get("log_level") is not None:
+                # the documented optional argument: override the strategy's log level
+                self.sim.set_error_strategy(strategy, case["log_level"])
+            else:
+                self.sim.set_error_strategy(strategy)
         cls = SizedProgramModel if case.get("sized_model") else ProgramModel
         self.model = cls(self.sim, self)
         if self.prog.get("initial"):
@@ -745,6 +790,8 @@ class Runner:
         hooks = {}
         if self.listener_cmds:
             hooks = {n: self.listener_hook for n in self.listener_cmds}
+        if self.prog.get("tc_listener"):
+            hooks["TIME_CHANGED"] = self.listener_hook
         self.collector = Collector(self.hist, hooks)
         oversleep = None
         if sc.get("oversleep"):
@@ -765,6 +812,8 @@ class Runner:
         if sc.get("stall"):
             det.stall_rng = common.rng_for(sc.get("seed", 0), "stall")
             det.stall_prob = sc["stall"]
+            if sc.get("stall_choices"):
+                det.stall_choices = tuple(sc["stall_choices"])
         if isinstance(det.schedule, detsim.SReplay):
             det.replay_stalls = det.schedule.stalls
         if sc.get("clock_jumps"):
